@@ -360,6 +360,59 @@ static blob deep_chain(long n) {
     blob r; r.b = b; r.n = (size_t)(p - b); return r;
 }
 
+/* directed: a v1 data page of an OPTIONAL INT64 column whose definition-level block announces k bytes more (or fewer)
+ * than the page body holds behind the 4-byte prefix; the levels themselves (one RLE run "N times 1") are complete,
+ * the page promises N = 200000 values and holds none.  Every variant must be refused (or read short) without touching
+ * memory outside the file.  Built from a file of carquet's own writer by re-serialising page header and footer. */
+static blob levels_overhang(int k) {
+    char path[128]; snprintf(path, sizeof path, "/tmp/verif_c04_%d_lo.parquet", (int)getpid());
+    blob none; none.b = h_alloc(0); none.n = 0;
+    carquet_error_t err; memset(&err, 0, sizeof err);
+    carquet_schema_t* sc = carquet_schema_create(&err);
+    (void)!carquet_schema_add_column(sc, "v", CARQUET_PHYSICAL_INT64, NULL, CARQUET_REPETITION_OPTIONAL, 0);
+    carquet_writer_options_t wo; carquet_writer_options_init(&wo); wo.compression = CARQUET_COMPRESSION_UNCOMPRESSED;
+    carquet_writer_t* w = carquet_writer_create(path, sc, &wo, &err);
+    if (!w) { carquet_schema_free(sc); return none; }
+    int64_t one = 7; int16_t d1 = 1;
+    (void)!carquet_writer_write_batch(w, 0, &one, 1, &d1, NULL);
+    int ok = carquet_writer_close(w) == CARQUET_OK; carquet_schema_free(sc);
+    if (!ok) return none;
+    FILE* f = fopen(path, "rb"); fseek(f, 0, SEEK_END); long n = ftell(f); fseek(f, 0, SEEK_SET);
+    uint8_t* fb = h_alloc((size_t)n); if (fread(fb, 1, (size_t)n, f) != (size_t)n) n = 0; fclose(f); unlink(path);
+    if (n < 12) { free(fb); return none; }
+    uint32_t flen = (uint32_t)fb[n - 8] | ((uint32_t)fb[n - 7] << 8) | ((uint32_t)fb[n - 6] << 16) | ((uint32_t)fb[n - 5] << 24);
+    size_t fstart = (size_t)n - 8 - flen;
+    carquet_arena_t arena; carquet_arena_init(&arena);
+    parquet_file_metadata_t md; parquet_page_header_t ph; size_t hs = 0;
+    if (parquet_parse_file_metadata(fb + fstart, flen, &arena, &md, &err) != CARQUET_OK || md.num_row_groups != 1 ||
+        parquet_parse_page_header(fb + 4, fstart - 4, &ph, &hs, &err) != CARQUET_OK) { carquet_arena_destroy(&arena); free(fb); return none; }
+    const int32_t N = 200000;
+    uint8_t run[8]; int rl = 0; { uint32_t v = (uint32_t)N << 1; while (v >= 0x80) { run[rl++] = (uint8_t)(v | 0x80); v >>= 7; } run[rl++] = (uint8_t)v; run[rl++] = 0x01; }
+    uint8_t body[16]; uint32_t L = (uint32_t)(rl + k);
+    body[0] = (uint8_t)L; body[1] = (uint8_t)(L >> 8); body[2] = (uint8_t)(L >> 16); body[3] = (uint8_t)(L >> 24); memcpy(body + 4, run, (size_t)rl);
+    size_t bl = 4 + (size_t)rl;
+    ph.uncompressed_page_size = ph.compressed_page_size = (int32_t)bl; ph.has_crc = false;
+    ph.data_page_header.num_values = N; memset(&ph.data_page_header.statistics, 0, sizeof ph.data_page_header.statistics); ph.data_page_header.has_statistics = false;
+    carquet_buffer_t hb, fbuf; carquet_buffer_init(&hb); carquet_buffer_init(&fbuf);
+    blob r = none;
+    if (parquet_write_page_header(&ph, &hb, NULL) == CARQUET_OK) {
+        parquet_row_group_t* rg = &md.row_groups[0]; parquet_column_metadata_t* cm = &rg->columns[0].metadata;
+        md.num_rows = N; rg->num_rows = N; cm->num_values = N;
+        cm->total_compressed_size = (int64_t)(hb.size + bl); cm->total_uncompressed_size = (int64_t)bl; cm->data_page_offset = 4;
+        rg->columns[0].file_offset = 4; rg->total_byte_size = (int64_t)(hb.size + bl);
+        if (parquet_write_file_metadata(&md, &fbuf, NULL) == CARQUET_OK) {
+            r.n = 4 + hb.size + bl + fbuf.size + 8; r.b = h_alloc(r.n); uint8_t* p = r.b;
+            memcpy(p, "PAR1", 4); p += 4; memcpy(p, hb.data, hb.size); p += hb.size; memcpy(p, body, bl); p += bl;
+            memcpy(p, fbuf.data, fbuf.size); p += fbuf.size;
+            uint32_t FL = (uint32_t)fbuf.size; *p++ = (uint8_t)FL; *p++ = (uint8_t)(FL >> 8); *p++ = (uint8_t)(FL >> 16); *p++ = (uint8_t)(FL >> 24);
+            memcpy(p, "PAR1", 4);
+            free(none.b);
+        }
+    }
+    carquet_buffer_destroy(&hb); carquet_buffer_destroy(&fbuf); carquet_arena_destroy(&arena); free(fb);
+    return r;
+}
+
 static void gen_c04(hctx* h) {
     long bases = h->thorough ? 40 : 6, per = h->thorough ? 400 : 60;
     if (h->shards > 1) bases = (bases + h->shards - 1) / h->shards;
@@ -384,6 +437,12 @@ static void gen_c04(hctx* h) {
         free(base.b);
     }
     if (h->shards <= 1 || h->seed % (uint64_t)h->shards == 0) {
+        for (int k = -2; k <= 6; k++) {
+            char desc[40]; snprintf(desc, sizeof desc, "levels_overhang_%d", k);
+            blob f = levels_overhang(k);
+            if (f.n) for (int mode = 0; mode < 3; mode++) exercise(h, f, mode, desc);
+            free(f.b);
+        }
         static const long depths[] = { 40, 2000, 65536, 400000, 1000000 };
         for (int i = 0; i < 5; i++) {
             char desc[40]; snprintf(desc, sizeof desc, "deepchain_%ld", depths[i]);
